@@ -267,7 +267,7 @@ pub fn check(prog: &Prog, kind: Kind, plan: &Plan, refrun: &RefRun, refnp: &RefR
     // ---- order oracles --------------------------------------------------------------------
     // skip when the value-level comparison already failed under a fault-free plan: tags would be unreliable
     if value_ok || expect_panic {
-        order_checks(prog, refnp, &oev, &rindex, &mut out);
+        order_checks(prog, kind, refnp, &oev, &rindex, &mut out);
     }
 
     // ---- thread oracle --------------------------------------------------------------------
@@ -312,6 +312,7 @@ impl Span {
 
 fn order_checks(
     prog: &Prog,
+    kind: Kind,
     refnp: &RefRun,
     oev: &BTreeMap<(u32, u32), ObsEv>,
     rindex: &BTreeMap<(u32, u32), usize>,
@@ -330,6 +331,17 @@ fn order_checks(
         ev: u32,
     }
     let mut seg_units: BTreeMap<Vec<u32>, Vec<Unit>> = BTreeMap::new();
+    // task-spawning try invocations in which a step failed: the siblings of the failed branch finish
+    // detached, so their events are not ordered against anything outside that invocation
+    let detached: Vec<(u32, u32)> = refnp
+        .fail_notes
+        .iter()
+        .filter(|n| {
+            let k = prog.inv_kind(n.0, kind);
+            k.is_async() && k.is_spawn()
+        })
+        .map(|n| (n.0, n.1))
+        .collect();
 
     for e in refnp.events.iter() {
         let oe = match oev.get(&(e.ev, e.occ)) {
@@ -339,10 +351,18 @@ fn order_checks(
         // a gate created inside a block capture starts, as far as its branch is concerned, at its first poll
         let start = if e.created_in_capture { oe.arrive_seq.or(oe.pass_seq).unwrap_or(oe.first_seq) } else { oe.first_seq };
         let oe = &ObsEv { first_seq: start, arrive_seq: oe.arrive_seq, pass_seq: oe.pass_seq, dg: oe.dg, ent: oe.ent };
+        let first_detached_level = e.tag.iter().rposition(|t| detached.contains(&(t.inv, t.inst)));
         let mut key: Vec<u32> = Vec::new();
         for (l, t) in e.tag.iter().enumerate() {
             key.push(t.inv);
             key.push(t.inst);
+            if let Some(dl) = first_detached_level {
+                if l < dl {
+                    key.push(t.branch);
+                    key.push(t.step);
+                    continue;
+                }
+            }
             let ent = inst_steps.entry((key.clone(), t.step)).or_insert((Span::new(), Span::new(), e.ev, e.ev));
             if t.branch == CALLER {
                 ent.1.add(oe.first_seq, oe.pass_seq);
